@@ -1,7 +1,19 @@
 package c20
 
-// driverSrc is compiled together with calls.go and the derived.gen.go of this run.
-// One line per case: GOMAXPROCS|rank of each function (completion order forced by sleeps)|(fs ...)
+// driverSrc is compiled together with calls.go (callsSrc) and the derived.gen.go of this run.
+// One line per case:
+//
+//	GOMAXPROCS|rank of each function (completion order forced by sleeps)|shape|class|(fs ...)
+//
+// shape selects the deriveDo instance (int = do2/do3/do4 on int results, otherwise one of the typed
+// instances of callsSrc); class is copied into the observation ("-" = the original `(run …)` line).
+// For the typed instances the natural number rv of the model is encoded as a value of the result
+// type (0 = the zero value: nil interface / nil pointer / nil slice / nil map / nil func / nil
+// channel / "" / S{}; 1 = the second "empty" value where the type has one: a typed nil pointer
+// inside the interface, an empty non-nil slice; k = a value carrying k) and decoded again after the
+// call, so that "each function's value in its position" is checked for every kind of result type.
+// The source must behave the same under the pre-1.22 loop variable semantics: it is also compiled in
+// a module whose go.mod says go 1.21 / go 1.18.
 const driverSrc = `package main
 
 import (
@@ -72,23 +84,248 @@ func parseFs(s string) []fun {
 }
 
 type result struct {
-	vals []int
-	err  error
+	vals     []int
+	err      error
+	panicked bool
 }
 
-func call(fns []func() (int, error)) result {
-	switch len(fns) {
-	case 2:
-		a, b, e := do2(fns[0], fns[1])
-		return result{[]int{a, b}, e}
-	case 3:
-		a, b, c, e := do3(fns[0], fns[1], fns[2])
-		return result{[]int{a, b, c}, e}
-	case 4:
-		a, b, c, d, e := do4(fns[0], fns[1], fns[2], fns[3])
-		return result{[]int{a, b, c, d}, e}
+const undecodable = 999999
+
+// Sq implements the interface Shape of calls.go
+type Sq struct{ Side int }
+
+func (s *Sq) Area() int {
+	if s == nil {
+		return 0
 	}
-	panic("unsupported number of functions")
+	return s.Side * s.Side
+}
+
+// ---- encodings of a natural number as a value of each result type ----
+
+func encStr(k int) string {
+	if k == 0 {
+		return ""
+	}
+	return strconv.Itoa(k)
+}
+func decStr(s string) int {
+	if s == "" {
+		return 0
+	}
+	if k, err := strconv.Atoi(s); err == nil && k > 0 {
+		return k
+	}
+	return undecodable
+}
+func encPtr(k int) *S {
+	if k == 0 {
+		return nil
+	}
+	return &S{k}
+}
+func decPtr(p *S) int {
+	if p == nil {
+		return 0
+	}
+	return p.A
+}
+func encSlice(k int) []int {
+	switch k {
+	case 0:
+		return nil
+	case 1:
+		return []int{}
+	}
+	return []int{k}
+}
+func decSlice(l []int) int {
+	switch {
+	case l == nil:
+		return 0
+	case len(l) == 0:
+		return 1
+	case len(l) == 1:
+		return l[0]
+	}
+	return undecodable
+}
+func encShape(k int) Shape {
+	switch k {
+	case 0:
+		return nil
+	case 1:
+		return (*Sq)(nil) // a non-nil interface value holding a nil pointer
+	}
+	return &Sq{k}
+}
+func decShape(v Shape) int {
+	if v == nil {
+		return 0
+	}
+	p, ok := v.(*Sq)
+	if !ok {
+		return undecodable
+	}
+	if p == nil {
+		return 1
+	}
+	return p.Side
+}
+func encAny(k int) interface{} {
+	switch k {
+	case 0:
+		return nil
+	case 1:
+		return (*Sq)(nil)
+	}
+	return k
+}
+func decAny(v interface{}) int {
+	switch x := v.(type) {
+	case nil:
+		return 0
+	case int:
+		return x
+	case *Sq:
+		if x == nil {
+			return 1
+		}
+	}
+	return undecodable
+}
+func encErrVal(k int) error {
+	if k == 0 {
+		return nil
+	}
+	return &dErr{k}
+}
+func decErrVal(e error) int {
+	if e == nil {
+		return 0
+	}
+	if d, ok := e.(*dErr); ok && d != nil {
+		return d.i
+	}
+	return undecodable
+}
+func encMap(k int) map[string]int {
+	switch k {
+	case 0:
+		return nil
+	case 1:
+		return map[string]int{}
+	}
+	return map[string]int{"k": k}
+}
+func decMap(m map[string]int) int {
+	switch {
+	case m == nil:
+		return 0
+	case len(m) == 0:
+		return 1
+	case len(m) == 1 && m["k"] != 0:
+		return m["k"]
+	}
+	return undecodable
+}
+func encFunc(k int) func() int {
+	if k == 0 {
+		return nil
+	}
+	return func() int { return k }
+}
+func decFunc(f func() int) int {
+	if f == nil {
+		return 0
+	}
+	return f()
+}
+func encChan(k int) chan int {
+	if k == 0 {
+		return nil
+	}
+	c := make(chan int, 1)
+	c <- k
+	return c
+}
+func decChan(c chan int) int {
+	if c == nil {
+		return 0
+	}
+	select {
+	case k := <-c:
+		return k
+	default:
+	}
+	return undecodable
+}
+
+func call(shape string, fns []func() (int, error)) result {
+	f0, f1 := fns[0], fns[1]
+	var f2, f3 func() (int, error)
+	if len(fns) > 2 {
+		f2 = fns[2]
+	}
+	if len(fns) > 3 {
+		f3 = fns[3]
+	}
+	switch shape {
+	case "int":
+		switch len(fns) {
+		case 2:
+			a, b, e := do2(f0, f1)
+			return result{vals: []int{a, b}, err: e}
+		case 3:
+			a, b, c, e := do3(f0, f1, f2)
+			return result{vals: []int{a, b, c}, err: e}
+		case 4:
+			a, b, c, d, e := do4(f0, f1, f2, f3)
+			return result{vals: []int{a, b, c, d}, err: e}
+		}
+	case "mix": // string, *S, []int
+		a, b, c, e := doMix(
+			func() (string, error) { v, e := f0(); return encStr(v), e },
+			func() (*S, error) { v, e := f1(); return encPtr(v), e },
+			func() ([]int, error) { v, e := f2(); return encSlice(v), e })
+		return result{vals: []int{decStr(a), decPtr(b), decSlice(c)}, err: e}
+	case "iface2": // Shape, any
+		a, b, e := doIface2(
+			func() (Shape, error) { v, e := f0(); return encShape(v), e },
+			func() (any, error) { v, e := f1(); return encAny(v), e })
+		return result{vals: []int{decShape(a), decAny(b)}, err: e}
+	case "iface3": // any, error (as a value), Shape
+		a, b, c, e := doIface3(
+			func() (interface{}, error) { v, e := f0(); return encAny(v), e },
+			func() (error, error) { v, e := f1(); return encErrVal(v), e },
+			func() (Shape, error) { v, e := f2(); return encShape(v), e })
+		return result{vals: []int{decAny(a), decErrVal(b), decShape(c)}, err: e}
+	case "ref3": // map, func, chan
+		a, b, c, e := doRef3(
+			func() (map[string]int, error) { v, e := f0(); return encMap(v), e },
+			func() (func() int, error) { v, e := f1(); return encFunc(v), e },
+			func() (chan int, error) { v, e := f2(); return encChan(v), e })
+		return result{vals: []int{decMap(a), decFunc(b), decChan(c)}, err: e}
+	case "ref4": // map, func, chan, struct
+		a, b, c, d, e := doRef4(
+			func() (map[string]int, error) { v, e := f0(); return encMap(v), e },
+			func() (func() int, error) { v, e := f1(); return encFunc(v), e },
+			func() (chan int, error) { v, e := f2(); return encChan(v), e },
+			func() (S, error) { v, e := f3(); return S{v}, e })
+		return result{vals: []int{decMap(a), decFunc(b), decChan(c), d.A}, err: e}
+	}
+	panic("driver: unsupported shape/number of functions: " + shape)
+}
+
+// callRecover: a panic of the derived function in the calling goroutine is an outcome, not a crash
+func callRecover(shape string, fns []func() (int, error)) (r result) {
+	defer func() {
+		if p := recover(); p != nil {
+			fmt.Fprintf(os.Stderr, "deriveDo (%s) panicked: %v\n", shape, p)
+			r = result{panicked: true}
+		}
+	}()
+	return call(shape, fns)
 }
 
 func main() {
@@ -102,14 +339,19 @@ func main() {
 	defer w.Flush()
 	deadlocks := 0
 	for sc.Scan() {
-		parts := strings.SplitN(sc.Text(), "|", 3)
+		parts := strings.SplitN(sc.Text(), "|", 5)
 		procs, _ := strconv.Atoi(parts[0])
 		var rank []int
 		for _, x := range strings.Split(parts[1], ",") {
 			k, _ := strconv.Atoi(x)
 			rank = append(rank, k)
 		}
-		fsText := parts[2]
+		shape, class := parts[2], parts[3]
+		fsText := parts[4]
+		head := "(run " + fsText
+		if class != "-" {
+			head = "(runc (" + class + ") " + fsText
+		}
 		fs := parseFs(fsText)
 		n := len(fs)
 		runtime.GOMAXPROCS(procs)
@@ -157,12 +399,16 @@ func main() {
 		done := make(chan result, 1)
 		var finAtReturn int32
 		go func() {
-			r := call(fns)
+			r := callRecover(shape, fns)
 			finAtReturn = atomic.LoadInt32(&finished)
 			done <- r
 		}()
 		select {
 		case r := <-done:
+			if r.panicked {
+				fmt.Fprintf(w, "%s panic)\n", head)
+				break // out of the select: next case
+			}
 			alldone := 0
 			if int(finAtReturn) == n {
 				alldone = 1
@@ -189,17 +435,61 @@ func main() {
 			for i, v := range r.vals {
 				vs[i] = strconv.Itoa(v)
 			}
-			fmt.Fprintf(w, "(run %s (ret (%s) %d %d %d))\n", fsText, strings.Join(vs, " "), e, leaked, alldone)
+			fmt.Fprintf(w, "%s (ret (%s) %d %d %d))\n", head, strings.Join(vs, " "), e, leaked, alldone)
 			if leaked > 0 || alldone == 0 {
 				deadlocks++ // blocked goroutines stay behind: a few such cases are enough
 			}
 		case <-time.After(3 * time.Second):
-			fmt.Fprintf(w, "(run %s deadlock)\n", fsText)
+			fmt.Fprintf(w, "%s deadlock)\n", head)
 			deadlocks++
 		}
 		if deadlocks >= 4 {
 			break
 		}
 	}
+}
+`
+
+// callsSrc is the user's file: the calls of deriveDo that goderive sees (it imports nothing, so that
+// goderive does not have to type-check the standard library from source).
+//   - do2, do3, do4: int results, so that a swap of positions still compiles;
+//   - doMix: string, pointer, slice;
+//   - doIface2, doIface3: results of INTERFACE type (a local interface, any, and error as a value) -
+//     the only types whose zero value is a nil interface, i.e. the idiomatic `return nil, err`;
+//   - doRef3, doRef4: map, func, chan (and struct) results.
+const callsSrc = `package main
+
+func do2(f0 func() (int, error), f1 func() (int, error)) (int, int, error) { return deriveDo2(f0, f1) }
+
+func do3(f0 func() (int, error), f1 func() (int, error), f2 func() (int, error)) (int, int, int, error) {
+	return deriveDo3(f0, f1, f2)
+}
+
+func do4(f0 func() (int, error), f1 func() (int, error), f2 func() (int, error), f3 func() (int, error)) (int, int, int, int, error) {
+	return deriveDo4(f0, f1, f2, f3)
+}
+
+type S struct{ A int }
+
+type Shape interface{ Area() int }
+
+func doMix(f0 func() (string, error), f1 func() (*S, error), f2 func() ([]int, error)) (string, *S, []int, error) {
+	return deriveDoMix(f0, f1, f2)
+}
+
+func doIface2(f0 func() (Shape, error), f1 func() (any, error)) (Shape, any, error) {
+	return deriveDoIface2(f0, f1)
+}
+
+func doIface3(f0 func() (interface{}, error), f1 func() (error, error), f2 func() (Shape, error)) (interface{}, error, Shape, error) {
+	return deriveDoIface3(f0, f1, f2)
+}
+
+func doRef3(f0 func() (map[string]int, error), f1 func() (func() int, error), f2 func() (chan int, error)) (map[string]int, func() int, chan int, error) {
+	return deriveDoRef3(f0, f1, f2)
+}
+
+func doRef4(f0 func() (map[string]int, error), f1 func() (func() int, error), f2 func() (chan int, error), f3 func() (S, error)) (map[string]int, func() int, chan int, S, error) {
+	return deriveDoRef4(f0, f1, f2, f3)
 }
 `
